@@ -15,7 +15,7 @@ from common import (discovered_env_reads, discovered_env_value, NCPU, SIM_DIR, T
 from procsim import HEADER_RE, base_env, run_child, split_driver_output
 
 ROUTES = ["lib", "lib_again", "lib_after_others", "cli", "cli_release", "compile_file", "compile_dir", "compile_exit"]
-FACTORS = ["entropy", "clock", "envvars", "cwd", "spelling", "stdout", "heap_pad", "arg_order", "cpus", "file_mode"]
+FACTORS = ["entropy", "clock", "envvars", "cwd", "spelling", "stdout", "heap_pad", "arg_order", "cpus", "file_mode", "nest"]
 
 
 CARGO_LIKE = ["CARGO_PKG_NAME", "CARGO_CRATE_NAME", "CARGO_BIN_NAME", "CARGO_PKG_VERSION", "CARGO_PRIMARY_PACKAGE", "PROFILE", "TARGET", "HOST",
@@ -79,6 +79,8 @@ def gen_env(rng, idents=(), path_leads=()):
         "heap_pad": rng.choice([0, 0, 7, 100, 1000]),
         "arg_order": rng.below(1 << 30),
         "file_mode": rng.choice([0o644, 0o644, 0o444, 0o755, 0o600, 0o400]),
+        # where the project lives: directly in the run directory, or many levels (and many bytes of path) further down
+        "nest": rng.choice([0, 0, 0, 6, 14, 40]),
     }
 
 
@@ -179,9 +181,16 @@ def spell(path, spelling, simdir, envdir, cwd_abs):
     return path
 
 
+def env_dir(simdir, k, route, env):
+    envdir = os.path.join(simdir, "e%d_%s" % (k, route))
+    for lvl in range(env.get("nest", 0)):
+        envdir = os.path.join(envdir, "checkout-%02d" % lvl if lvl % 3 else "w")
+    return envdir
+
+
 def run_route(route, sim, env, simdir, k, stats=None):
     """Runs one route in environment k; returns dict(ok=bool, crashed=bool, bytes=..., canary=...)."""
-    envdir = os.path.join(simdir, "e%d_%s" % (k, route))
+    envdir = env_dir(simdir, k, route, env)
     proj = os.path.join(envdir, "proj")
     os.makedirs(os.path.join(proj, "grammars"))
     os.makedirs(os.path.join(proj, "out"))
@@ -245,7 +254,7 @@ def run_route(route, sim, env, simdir, k, stats=None):
         argv = [sim_bin("driver"), "gen", g_sp] + sa
     elif route == "lib_again":
         # the Grammar value has a history inside the process (used before, cloned, Debug-printed)
-        argv = [sim_bin("driver"), "gen", g_sp] + sa + ["--again", Rng(env.get("arg_order", 0) + 17).choice(["same", "thrice", "clone_after", "clone_before", "debug_first"])]
+        argv = [sim_bin("driver"), "gen", g_sp] + sa + ["--again", Rng(env.get("arg_order", 0) + 17).choice(["same", "thrice", "clone_after", "clone_before", "debug_first", "settings_reused", "settings_cloned", "settings_twice"])]
     elif route == "lib_after_others":
         argv = [sim_bin("driver"), "gen-multi"] + comp_paths + [g_sp] + sa
     elif route.startswith("cli"):
@@ -385,7 +394,7 @@ def execute_sim(sim, simdir):
                 if not pr["ok"]:
                     viol.append({"class": "routes-disagree-on-acceptance", "route": route, "env": k, "detail": "format on ok, format off %s" % pr["status"]})
                     continue
-                tmp = os.path.join(simdir, "e%d_%s" % (100 + k, route), "fmt%d.rs" % k)
+                tmp = os.path.join(env_dir(simdir, 100 + k, route, sim["envs"][k]), "fmt%d.rs" % k)
                 with open(tmp, "wb") as f:
                     f.write(pr["bytes"])
                 p = subprocess.run(["rustfmt", tmp], env=base_env("present"), capture_output=True)
